@@ -570,9 +570,17 @@ impl<T: Transport + 'static> SyncEngine<T> {
 
             // Apply deletion safety checks
             if !deletions.is_empty() && !self.force_delete {
+                // sy's own metadata files are never deletion candidates, so they do not
+                // count as destination entries either (the checksum database may have
+                // been created by this very run)
                 let dest_file_count = scanner::Scanner::new(destination)
                     .scan()
-                    .map(|files| files.len())
+                    .map(|files| {
+                        files
+                            .iter()
+                            .filter(|f| !Self::is_own_metadata_file(&f.relative_path))
+                            .count()
+                    })
                     .unwrap_or(0);
 
                 // Check threshold: prevent mass deletion
